@@ -844,3 +844,42 @@ Proof.
   unfold sel_resource, nest_resource. rewrite <- !ml_resource_g. apply g_resource_mono. intros els.
   unfold ml_pok. apply ml_pattern_mono, eokd_eokn.
 Qed.
+
+(* ---------------------------------------------------------------------------------------------- *)
+(* 6. ALL layouts                                                                                   *)
+
+(* `nest_layout d t bs`: bs is a layout of the tree t.  The relation (EntryLoop.gresource_layout over
+   RoundTripML.ml_value_layout and the layouts etextn d of the placeables) allows far more than the choices of
+   Render.v: ANY number of blank lines (each with any number of spaces) at the start and between entries (at least
+   the number the grammar requires after a stand-alone comment), any number of spaces around '=', any indentation
+   >= 1 of attribute lines and of the continuation lines of a value (the same for all lines of the value), a value
+   that starts on the line of the '=' or on a later line, blanks of any length (spaces, line breaks) inside braces,
+   brackets and parentheses, LF or CRLF at every line end, with or without a final line end *)
+Definition nest_layout (d : nat) (t : resource) (bs : bytes) : Prop := gresource_layout (ml_value_layout (etextn d)) t bs.
+
+Theorem parse_layout_nest_split d t bs : nest_resource d t = true -> nest_layout d t bs ->
+  exists t', parse bs = Done (t', []) /\ Forall2 (rel_entry (srel (goodn d))) t' t.
+Proof.
+  intros Ht HL. destruct (facts_alln d) as (_ & R & J & W & P).
+  apply (g_parse_layout (ml_pok (eokn d)) (ml_value_layout (etextn d)) (srel (goodn d)) t bs).
+  - intros els V T used c nx p n Hp. apply (get_pattern_ml (eokn d) (etextn d) (goodn d) R J P bs els V T used c nx p n Hp).
+  - intros els V Hp. apply (ml_value_layout_strip (eokn d) (etextn d) els V Hp).
+  - rewrite ml_resource_g. exact Ht.
+  - exact HL.
+Qed.
+
+Theorem parse_layout_nest d t bs : nest_resource d t = true -> nest_layout d t bs ->
+  exists t', parse bs = Done (t', []) /\ map join_entry t' = t.
+Proof.
+  intros Ht HL. destruct (parse_layout_nest_split d t bs Ht HL) as (t' & E & Hrel). exists t'. split; [exact E|].
+  apply jrel_entries. apply (rel_entries_mono (srel (goodn d)) jrel t' t); [intros x y [H _]; exact H | exact Hrel].
+Qed.
+
+(* the texts of Render.v are layouts *)
+Theorem render_nest_layout d cs t : nest_resource d t = true -> last_comment_ok t = true -> nest_layout d t (render cs t).
+Proof.
+  intros Ht Hl. destruct (facts_alln d) as (_ & R & J & W & P).
+  apply (g_render_layout (ml_pok (eokn d)) (ml_value_layout (etextn d)) (fun _ _ => True)); [| rewrite ml_resource_g; exact Ht | exact Hl].
+  intros ind els cs0 Hp Hind. destruct (ml_pattern_parts (eokn d) els Hp) as (_ & Hs & _).
+  apply (render_value_ml_layout (eokn d) (etextn d) R ind els cs0 Hs Hind).
+Qed.
